@@ -100,6 +100,7 @@ func sanitize(s string) string {
 // typeKey gives a stable name for a type; generic instantiations are keyed by origin
 // (generic bodies are verified once with uninterpreted parameter sorts).
 func typeKey(t types.Type) string {
+	t = types.Unalias(t)
 	return types.TypeString(t, func(p *types.Package) string { return p.Path() })
 }
 
@@ -157,6 +158,7 @@ func isBool(t types.Type) bool {
 }
 
 func (ts *Types) SortOf(t types.Type) *smt.Sort {
+	t = types.Unalias(t) // `type A = B`: one sort for both names
 	k := typeKey(t)
 	if s, ok := ts.sorts[k]; ok {
 		return s
@@ -216,6 +218,7 @@ func (ts *Types) sortOf(t types.Type) *smt.Sort {
 }
 
 func (ts *Types) StructOf(t types.Type) *structInfo {
+	t = types.Unalias(t)
 	// key by origin for generics
 	key := typeKey(t)
 	if n, ok := t.(*types.Named); ok && n.TypeArgs().Len() > 0 {
@@ -251,6 +254,7 @@ func heapName(prefix string, s *smt.Sort) string {
 
 // Zero is the zero value of a type.
 func (ts *Types) Zero(t types.Type) *smt.Term {
+	t = types.Unalias(t)
 	if _, ok := t.(*types.TypeParam); ok {
 		s := ts.SortOf(t)
 		return smt.Const("zero$"+s.Name, s)
@@ -320,6 +324,7 @@ func (ts *Types) ZeroArray(elem types.Type) *smt.Term {
 // outside (parameters, heap loads, call results): slice and string headers are
 // within the 2^48 address-space bound, references are non-negative.
 func (ts *Types) Inv(v *smt.Term, t types.Type, depth int) *smt.Term {
+	t = types.Unalias(t)
 	if depth > 3 {
 		return smt.True
 	}
